@@ -146,8 +146,7 @@ def per_row(c, rows):
                                          aggregation=False, prepare_ids=True)
         n = len(rows)
         return {'f': ratios(o.functions), 'g': [ratios(o.gradients[i]) for i in range(n)],
-                'h': [ratios(o.hessians[i]) for i in range(n)], 'b': [ratios(o.bhhhs[i]) for i in range(n)],
-                'free': list(ll.id_manager.free_betas.names)}
+                'h': [ratios(o.hessians[i]) for i in range(n)], 'b': [ratios(o.bhhhs[i]) for i in range(n)]}
     return part(go)
 
 
